@@ -456,7 +456,9 @@ func genSpec(r *hlib.Rand, seed uint64, idx, steps int, focus string) Spec {
 			g.add(Op{K: "ack", Chain: pr[0], Ack: k, Relayer: 0, FreshProof: true, Commit: true})
 		}
 	case idx == 1 && focus == "c05":
-		// corpus: O7, replay of an acknowledgement.  The self-named TSS client lets a copy of the already
+		// corpus: the O7 history.  SINCE FIX a9e74e1 THE FIRST STEP — the governance proposal creating a client under
+		// the chain's own name — IS REFUSED (monitor 25 otherwise) and everything built on it is rejected.  Before the fix:
+		// replay of an acknowledgement.  The self-named TSS client lets a copy of the already
 		// acknowledged packet through the relay branch of Keeper.RecvPacket, which re-creates commitment
 		// (A,B,1) with the same hash; the same MsgAcknowledgement is then offered again.
 		s.O7 = true
@@ -473,7 +475,7 @@ func genSpec(r *hlib.Rand, seed uint64, idx, steps int, focus string) Spec {
 		g.add(Op{K: "ack", Chain: 0, Ack: 0, Relayer: 0, FreshProof: true, Commit: true})
 		g.add(Op{K: "ack", Chain: 0, Ack: 0, Relayer: 0, FreshProof: true, Commit: true})
 	case idx == 1 && focus == "c04":
-		// corpus: the O7 witness
+		// corpus: the O7 history (since fix a9e74e1 the create proposal is refused, the forged receives are rejected)
 		s.O7 = true
 		g.add(Op{K: "create_client", Chain: 0, Name: "self", Type: "tss"})
 		g.add(Op{K: "send", Chain: 0, Dst: 1, Variant: "erc20", Amount: 100, Fee: 1, Commit: true})
